@@ -647,6 +647,59 @@ func c13Predefined(r *run.Run) {
 		})
 }
 
+// c13DeltaArrays: BlueValues / OtherBlues are stored delta-encoded; the deltas of neighbouring entries
+// far apart do not fit into 16 bits (DICT integers have 32).
+func c13DeltaArrays(r *run.Run) {
+	vals := []funit.Int16{-32768, -30000, -20000, -1, 0, 1, 700, 12767, 20000, 32767}
+	r.Explore(explore.Config{Name: "C13.delta-arrays"},
+		"BlueValues and OtherBlues of a private dictionary: all increasing pairs and quadruples over {-32768, -30000, -20000, -1, 0, 1, 700, 12767, 20000, 32767} (steps up to 65535 between neighbouring entries): the arrays read back, and the running sums of the operands an independent DICT parser finds, equal the values written",
+		func(c *explore.Ctx) {
+			var arr []funit.Int16
+			n := 2 * (1 + c.Choose(2, "pairs"))
+			prev := -1
+			for i := 0; i < n; i++ {
+				k := prev + 1 + c.Choose(len(vals)-prev-1-(n-1-i), "next value")
+				arr = append(arr, vals[k])
+				prev = k
+			}
+			other := c.Bool("OtherBlues")
+			f := &cff.Font{FontInfo: c13Info(), Outlines: &cff.Outlines{Private: []*type1.PrivateDict{c13Priv(0)}, FDSelect: func(glyph.ID) int { return 0 }}}
+			f.Glyphs = []*cff.Glyph{c13Glyph(".notdef", 500, 1), c13Glyph("A", 600, 2)}
+			f.Encoding = cff.StandardEncoding(f.Glyphs)
+			op := 6
+			if other {
+				f.Private[0].OtherBlues = arr
+				op = 7
+			} else {
+				f.Private[0].BlueValues = arr
+			}
+			desc := fmt.Sprintf("operator %d = %v", op, arr)
+			c.Sample(func() any { return desc })
+			c.Nontrivial()
+			rf, g := c13Roundtrip(c, "delta arrays", f, desc)
+			if g == nil {
+				return
+			}
+			c13Compare(c, "delta arrays", f, g, desc)
+			if rf != nil && len(rf.Privates) == 1 {
+				ops := rf.Privates[0].Dict[op]
+				sum := 0.0
+				var got []float64
+				for _, d := range ops {
+					sum += d
+					got = append(got, sum)
+				}
+				ok := len(got) == len(arr)
+				for i := range arr {
+					ok = ok && got[i] == float64(arr[i])
+				}
+				if !ok {
+					c.Fail("C13.structure", "delta arrays / dict operands", "independent DICT parser finds the deltas %v, i.e. the values %v, for operator %d; written %v", ops, got, op, arr)
+				}
+			}
+		})
+}
+
 func c13Numbers(r *run.Run) {
 	ints := []int32{0, 107, 108, -107, -108, 1131, 1132, -1131, -1132, 32767, 32768, -32768, -32769, 1<<31 - 1, -1 << 31}
 	reals := []float64{0.5, 0.001, 0.039625, 1e-5, 123456789, 1.23456789e-20, -7.5e12, 0.1, -0.25, 3.0e-3, 1e10, 1e300, -2.5e-300, 3e-310, 5e-324}
@@ -776,6 +829,7 @@ func init() {
 		c13AssembledDicts(r)
 		c13Predefined(r)
 		c13Numbers(r)
+		c13DeltaArrays(r)
 		c13Widths(r)
 	})
 }
